@@ -32,7 +32,8 @@ Inductive fate := Running | Crash.        (* of the server process *)
 Inductive sev :=
 | Connect (c : N)                          (* accept *)
 | Data (c : N) (now : N) (d : list N)      (* one successful Read of d at time now (ms) *)
-| Close (c : N).                           (* Read returns EOF / ECONNRESET / any error *)
+| Close (c : N)                            (* Read returns EOF / ECONNRESET / any error *)
+| WriteErr (c : N).                        (* the peer stopped receiving: from now on conn.Write on c returns an error *)
 
 (* maps from connection ids *)
 Section CMap.
@@ -233,9 +234,12 @@ Record conn := {
   k_ps : pst;                      (* packageParse *)
   k_h : Reply.hstate;              (* handler instances of this connection *)
   k_seq : N;                       (* platformSerialNumber *)
-  k_key : option (list N)          (* the key the connection joined under *)
+  k_key : option (list N);         (* the key the connection joined under *)
+  k_broken : bool                  (* conn.Write fails (the writer logs it, sets ExtensionFields.Err and goes on) *)
 }.
-Definition conn0 : conn := {| k_ps := pst0; k_h := Reply.hstate0; k_seq := 0; k_key := None |}.
+Definition conn0 : conn := {| k_ps := pst0; k_h := Reply.hstate0; k_seq := 0; k_key := None; k_broken := false |}.
+Definition break_conn (c : conn) : conn :=
+  {| k_ps := k_ps c; k_h := k_h c; k_seq := k_seq c; k_key := k_key c; k_broken := true |}.
 
 (* one conn.Write *)
 Record wout := { o_rid : N; o_seq : N; o_bytes : list N }.
@@ -254,7 +258,7 @@ Definition deliver (parse_all : bool) (taken : list N -> bool) (c : conn) (p : p
   | None => Ok (D_go c [])                                       (* OnNotSupportedEvent *)
   | Some hi =>
     if m_id m =? Reply.REISSUE then                              (* reissuePackChan -> subPackReplyEvent *)
-      Ok (D_go {| k_ps := k_ps c; k_h := k_h c; k_seq := Reply.next_seq (k_seq c); k_key := k_key c |}
+      Ok (D_go {| k_ps := k_ps c; k_h := k_h c; k_seq := Reply.next_seq (k_seq c); k_key := k_key c; k_broken := k_broken c |}
                [{| o_rid := Reply.REISSUE; o_seq := k_seq c;
                    o_bytes := encode m Reply.REISSUE (k_seq c) (m_body m) |}])
     else
@@ -270,12 +274,12 @@ Definition deliver (parse_all : bool) (taken : list N -> bool) (c : conn) (p : p
           r <- reply_body_chk (Reply.hi_kind hi) (k_h c) m ;;
           match snd r with
           | Some body =>
-            Ok (D_go {| k_ps := k_ps c; k_h := fst r; k_seq := Reply.next_seq (k_seq c); k_key := key |}
+            Ok (D_go {| k_ps := k_ps c; k_h := fst r; k_seq := Reply.next_seq (k_seq c); k_key := key; k_broken := k_broken c |}
                      [{| o_rid := Reply.hi_rid hi; o_seq := k_seq c;
                          o_bytes := encode m (Reply.hi_rid hi) (k_seq c) body |}])
-          | None => Ok (D_go {| k_ps := k_ps c; k_h := fst r; k_seq := k_seq c; k_key := key |} [])
+          | None => Ok (D_go {| k_ps := k_ps c; k_h := fst r; k_seq := k_seq c; k_key := key; k_broken := k_broken c |} [])
           end
-        else Ok (D_go {| k_ps := k_ps c; k_h := k_h c; k_seq := k_seq c; k_key := key |} [])
+        else Ok (D_go {| k_ps := k_ps c; k_h := k_h c; k_seq := k_seq c; k_key := key; k_broken := k_broken c |} [])
       end
   end.
 
@@ -296,7 +300,7 @@ Fixpoint deliver_all (parse_all : bool) (taken : list N -> bool) (c : conn) (ps 
 Definition conn_data (parse_all : bool) (taken : list N -> bool) (now : N) (c : conn) (d : list N) : result dres :=
   r <- parse_chk now (k_ps c) d ;;
   let '(ps', msgs, err) := r in
-  let c' := {| k_ps := ps'; k_h := k_h c; k_seq := k_seq c; k_key := k_key c |} in
+  let c' := {| k_ps := ps'; k_h := k_h c; k_seq := k_seq c; k_key := k_key c; k_broken := k_broken c |} in
   match err with
   | Some _ => Ok (D_closed c' [])                                (* parse error: return (messages dropped) *)
   | None => deliver_all parse_all taken c' msgs
@@ -315,6 +319,10 @@ Definition init808 : srv808 := {| v_conns := []; v_log := []; v_shut := []; v_cr
 Definition taken_by_others (c : N) (conns : list (N * conn)) (key : list N) : bool :=
   existsb (fun kv => negb (fst kv =? c) &&
                      match k_key (snd kv) with Some k => list_eqb k key | None => false end) conns.
+
+(* what reaches the peer: nothing once conn.Write fails (defaultReplyEvent / subPackReplyEvent log the error, record it
+   in the message and carry on; the connection ends when the reader's Read fails) *)
+Definition delivered (k : conn) (outs : list wout) : list wout := if k_broken k then [] else outs.
 
 Definition step808 (parse_all : bool) (s : srv808) (e : sev) : srv808 :=
   if v_crashed s then s else
@@ -335,16 +343,21 @@ Definition step808 (parse_all : bool) (s : srv808) (e : sev) : srv808 :=
         | Panic => {| v_conns := v_conns s; v_log := v_log s; v_shut := v_shut s; v_crashed := true |}
         | Err _ => s
         | Ok (D_go k' outs) =>
-          {| v_conns := cset c k' (v_conns s); v_log := rev (map (fun o => (c, o)) outs) ++ v_log s;
+          {| v_conns := cset c k' (v_conns s); v_log := rev (map (fun o => (c, o)) (delivered k outs)) ++ v_log s;
              v_shut := v_shut s; v_crashed := false |}
         | Ok (D_closed k' outs) =>
-          {| v_conns := cremove c (v_conns s); v_log := rev (map (fun o => (c, o)) outs) ++ v_log s;
+          {| v_conns := cremove c (v_conns s); v_log := rev (map (fun o => (c, o)) (delivered k outs)) ++ v_log s;
              v_shut := c :: v_shut s; v_crashed := false |}
         end
       end
     end
   | Close c =>
     {| v_conns := cremove c (v_conns s); v_log := v_log s; v_shut := v_shut s; v_crashed := false |}
+  | WriteErr c =>
+    match cfind c (v_conns s) with
+    | Some k => {| v_conns := cset c (break_conn k) (v_conns s); v_log := v_log s; v_shut := v_shut s; v_crashed := false |}
+    | None => s
+    end
   end.
 
 Definition outcome808 (s : srv808) : fate := if v_crashed s then Crash else Running.
@@ -515,7 +528,7 @@ Definition feed_chk (d : N) (s : st) (seg : list N) : result (list N * st * bool
 (* a connection of the attachment server: Some st while run() is in its read loop, None after run()
    returned because of a fatal error (the socket stays open but is no longer read) *)
 Record srvatt := {
-  a_conns : list (N * option st);
+  a_conns : list (N * option (st * bool));   (* + conn.Write fails *)
   a_log : list (N * list N);       (* bytes written, newest first *)
   a_crashed : bool
 }.
@@ -529,33 +542,41 @@ Definition stepatt (d : N) (s : srvatt) (e : sev) : srvatt :=
   | Connect c =>
     match cfind c (a_conns s) with
     | Some _ => s
-    | None => {| a_conns := cset c (Some init_st) (a_conns s); a_log := a_log s; a_crashed := false |}
+    | None => {| a_conns := cset c (Some (init_st, false)) (a_conns s); a_log := a_log s; a_crashed := false |}
     end
   | Data c _ seg =>
     match cfind c (a_conns s), seg with
-    | Some (Some k), _ :: _ =>
+    | Some (Some (k, br)), _ :: _ =>
       match feed_chk d k seg with
       | Ok (w, k', stop) =>
+        (* a failed conn.Write leaves ExtensionFields.Err set: the session will end in stage FailQuit *)
+        let k'' := if br && negb (len w =? 0) then set_err k' else k' in
+        let w' := if (br : bool) then [] else w in
         if (stop : bool) then
           (* the deferred final event of run() *)
-          match on_event_chk d (set_stage k' ST_FAIL_QUIT) with
-          | Ok _ => {| a_conns := cset c None (a_conns s); a_log := (c, w) :: a_log s; a_crashed := false |}
+          match on_event_chk d (set_stage k'' ST_FAIL_QUIT) with
+          | Ok _ => {| a_conns := cset c None (a_conns s); a_log := (c, w') :: a_log s; a_crashed := false |}
           | _ => crashatt s
           end
-        else {| a_conns := cset c (Some k') (a_conns s); a_log := (c, w) :: a_log s; a_crashed := false |}
+        else {| a_conns := cset c (Some (k'', br)) (a_conns s); a_log := (c, w') :: a_log s; a_crashed := false |}
       | _ => crashatt s
       end
     | _, _ => s
     end
   | Close c =>
     match cfind c (a_conns s) with
-    | Some (Some k) =>
+    | Some (Some (k, _)) =>
       match on_event_chk d (quit k) with
       | Ok _ => {| a_conns := cremove c (a_conns s); a_log := a_log s; a_crashed := false |}
       | _ => crashatt s
       end
     | Some None => {| a_conns := cremove c (a_conns s); a_log := a_log s; a_crashed := false |}
     | None => s
+    end
+  | WriteErr c =>
+    match cfind c (a_conns s) with
+    | Some (Some (k, _)) => {| a_conns := cset c (Some (k, true)) (a_conns s); a_log := a_log s; a_crashed := false |}
+    | _ => s
     end
   end.
 
@@ -565,7 +586,7 @@ Definition seenatt (c : N) (s : srvatt) : list N :=
   concat (map snd (filter (fun x => fst x =? c) (rev (a_log s)))).
 
 (* ---------- specification vocabulary for isolation ---------- *)
-Definition ev_conn (e : sev) : N := match e with Connect c => c | Data c _ _ => c | Close c => c end.
+Definition ev_conn (e : sev) : N := match e with Connect c => c | Data c _ _ => c | Close c => c | WriteErr c => c end.
 Definition without (c : N) (evs : list sev) : list sev := filter (fun e => negb (ev_conn e =? c)) evs.
 
 (* the side condition of isolation on the JT808 server, computed along the run: whenever a connection
